@@ -93,7 +93,7 @@ def run_case(case):
 
         def recv(self):
             d = script[st['pos']] if st['pos'] < len(script) else ['U', 1.0]
-            delay = 1.0 if d[0] == 'I' else float(d[-1]) if d[0] in 'RU' else 0.0
+            delay = 1.0 if d[0] == 'I' else float(d[-1]) if d[0] in 'RUE' else 0.0
             s.block('recv', lambda: st['local_closed'], delay)
             if st['local_closed']:
                 s.annotate(peer=['X'])
@@ -121,6 +121,8 @@ def run_case(case):
                         return f'{ra} {ident} [{float(tok)}, {{}}]\n'.encode()
                     return f'error_{action} {ident} ["BadValue", "tok{tok}", {{}}]\n'.encode()
             s.annotate(peer=['U'])
+            if d[0] == 'E':    # an asynchronous error update: like an update it answers no request
+                return b'error_update m:p ["HardwareError", "sensor broken", {}]\n'
             return b'update m:p [1.5, {}]\n'
 
     def event_factory():
@@ -488,7 +490,7 @@ def rand_peer(rng, n, user):
         k = rng.randint(0, 3)
         for _ in range(k):
             script.append(['R', rng.randrange(4), int(rng.random() < 0.8), delay()])
-        script += [['U', 0.5] for _ in range(24)]
+        script += [[rng.choice('UUE'), 0.5] for _ in range(24)]
         return script
     for _ in range(rng.randint(n, 3 * n + 4)):
         r = rng.random()
@@ -496,7 +498,7 @@ def rand_peer(rng, n, user):
             script.append(['R', rng.randrange(4), int(rng.random() < 0.75), delay()])
             idle_run = 0
         elif r < 0.8:
-            script.append(['U', delay()])
+            script.append([rng.choice('UUE'), delay()])
             idle_run = 0
         elif r < 0.92 and idle_run < 3:
             script.append(['I'])
@@ -533,6 +535,7 @@ def systematic_cases(max_pairs):
         {'reqs': [['read', 'm:p'], ['change', 'm:p']], 'peer': [['R', 1, 1, 0.0], ['U', 0.0], ['R', 0, 0, 0.0]], 'user': True},
         {'reqs': [['foo', 'm:p'], ['bar', 'm:q'], ['read', 'm:p']], 'peer': [['R', 0, 1, 0.0], ['R', 0, 0, 0.0], ['R', 0, 1, 0.0], ['X']], 'user': False},
         {'reqs': [['do', 'm:q'], ['do', 'm:q']], 'peer': [['R', 0, 1, 0.0], ['X']], 'user': True},
+        {'reqs': [['foo', 'm:q'], ['read', 'm:p']], 'peer': [['E', 0.0], ['R', 0, 1, 0.0], ['E', 0.0], ['R', 0, 1, 0.0], ['U', 0.0]], 'user': False},
     ]
     out = []
     for sc in scenarios:
